@@ -879,7 +879,18 @@ func C07(c *core.Ctx, replay string) {
 	}
 
 	// 4. (C) random larger key sets on the real gateway, judged by TLC as a trace
-	lines := c07Random(c, run, envs[0], c.Pick(16, 220))
+	// (on a gateway of its own with two processors: concurrent listings then share them)
+	renv := MustEnv(c, false, false, func(g *gw.Config) {
+		if g.Env == nil {
+			g.Env = map[string]string{}
+		}
+		g.Env["GOMAXPROCS"] = "2"
+	})
+	if renv == nil {
+		return
+	}
+	defer renv.Close()
+	lines := c07Random(c, run, renv, c.Pick(24, 220))
 	lines = append(lines, run.offVec...)
 	nAcc := len(run.accepted)
 	lines = append(lines, run.accepted...)
@@ -1257,64 +1268,95 @@ func c07Random(c *core.Ctx, run *lsRun, env *Env, nsets int) []*lsTraceLine {
 		{"d/" + lsReserved + "/x", "d/a", "d/z"},
 		{"a.txt", "a/b", "a/c/d", "a0"},
 	}
-	for s := 0; s < nsets+len(directed); s++ {
-		var keys []string
-		if s < len(directed) {
-			keys = directed[s]
-		} else {
-			keys = lsRandomKeys(c.Rng, 20)
-		}
-		bn := fmt.Sprintf("c07-rnd-%d", s)
-		mpu := s%2 == 0
-		meta, err := putKeyset(c, cl, bn, keys, c.Rng, mpu)
-		if err != nil && s < len(directed) {
-			// the gateway refuses the name: the key set is not in the bucket, nothing to check
-			run.mu.Lock()
-			run.refused = append(run.refused, fmt.Sprintf("%q: %v", keys, err))
-			run.mu.Unlock()
-			continue
-		}
-		if err != nil {
-			c.Inconclusive("random key set %q: %v", keys, err)
-			return lines
-		}
-		wb, hb := lsNewBinding(keys, nil), lsNewBinding(keys, meta)
-		v1, v2, v2s := lsHTTPBinding(cl, bn, "v1"), lsHTTPBinding(cl, bn, "v2"), lsHTTPBinding(cl, bn, "v2s")
-		for i := 0; i < c.Pick(14, 24); i++ {
-			p, d, m, max := lsRandomPoint(c.Rng, keys)
-			if i == 0 {
-				p, d, m, max = "", "", "", 1000
-			}
-			if i == 1 {
-				p, d, m, max = "", "/", "", 2
-			}
-			if mpu && i >= 2 && i <= 5 {
-				// a prefix that reaches below the reserved directory (an open multipart
-				// upload is staged there): still nothing internal may be listed
-				p, d, m, max = []string{lsReserved + "/multipart/", lsReserved + "/multipart", lsReserved + "/m", lsReserved + "/"}[i-2], []string{"", "/"}[i%2], "", 1000
-			}
-			ls := chainLines(run, hb, "v1", v1, p, d, m, max, mpu)
-			ls = append(ls, chainLines(run, hb, "v2", v2, p, d, m, max, mpu)...)
-			if m != "" {
-				ls = append(ls, chainLines(run, hb, "v2s", v2s, p, d, m, max, mpu)...)
-			}
-			if i%4 == 0 {
-				ls = append(ls, chainLines(run, wb, "walk", wb.walk, p, d, m, max, false)...)
-			}
-			for _, l := range ls {
-				run.pages[l.pt.API+"-random"]++
-				nt := ""
-				if len(l.obs.Keys)+len(l.obs.CPs) > 0 {
-					nt = fmt.Sprintf("r%d|%s|%s|%s|%d|%s", s, p, d, l.pt.Marker, max, l.pt.API)
-				}
-				c.Eval(nt)
-			}
-			lines = append(lines, ls...)
-		}
-		if s == 0 {
-			c.Sample(map[string]any{"random_keyset": keys})
-		}
+	// the key sets are handled by six clients side by side on ONE gateway: listings of
+	// different buckets, prefixes and pages are served at the same time (whatever a
+	// listing keeps in shared memory must not leak into another one)
+	var lmu sync.Mutex
+	var wg sync.WaitGroup
+	const par = 8
+	seeds := make([]int64, par)
+	for i := range seeds {
+		seeds[i] = c.Rng.Int63()
 	}
+	failed := false
+	for g := 0; g < par; g++ {
+		wg.Add(1)
+		go func(g int) {
+			defer wg.Done()
+			rng := rand.New(rand.NewSource(seeds[g]))
+			for s := g; s < nsets+len(directed); s += par {
+				var keys []string
+				if s < len(directed) {
+					keys = directed[s]
+				} else {
+					keys = lsRandomKeys(rng, 20)
+				}
+				bn := fmt.Sprintf("c07-rnd-%d", s)
+				mpu := s%2 == 0
+				meta, err := putKeyset(c, cl, bn, keys, rng, mpu)
+				if err != nil && s < len(directed) {
+					// the gateway refuses the name: the key set is not in the bucket, nothing to check
+					run.mu.Lock()
+					run.refused = append(run.refused, fmt.Sprintf("%q: %v", keys, err))
+					run.mu.Unlock()
+					continue
+				}
+				if err != nil {
+					c.Inconclusive("random key set %q: %v", keys, err)
+					lmu.Lock()
+					failed = true
+					lmu.Unlock()
+					return
+				}
+				wb, hb := lsNewBinding(keys, nil), lsNewBinding(keys, meta)
+				v1, v2, v2s := lsHTTPBinding(cl, bn, "v1"), lsHTTPBinding(cl, bn, "v2"), lsHTTPBinding(cl, bn, "v2s")
+				for i := 0; i < c.Pick(30, 30); i++ {
+					p, d, m, max := lsRandomPoint(rng, keys)
+					if i >= 14 && i%2 == 0 {
+						// whole-bucket pages: the longest replies
+						p, d, m, max = "", "", "", 1000
+					}
+					if i == 0 {
+						p, d, m, max = "", "", "", 1000
+					}
+					if i == 1 {
+						p, d, m, max = "", "/", "", 2
+					}
+					if mpu && i >= 2 && i <= 5 {
+						// a prefix that reaches below the reserved directory (an open multipart
+						// upload is staged there): still nothing internal may be listed
+						p, d, m, max = []string{lsReserved + "/multipart/", lsReserved + "/multipart", lsReserved + "/m", lsReserved + "/"}[i-2], []string{"", "/"}[i%2], "", 1000
+					}
+					ls := chainLines(run, hb, "v1", v1, p, d, m, max, mpu)
+					ls = append(ls, chainLines(run, hb, "v2", v2, p, d, m, max, mpu)...)
+					if m != "" {
+						ls = append(ls, chainLines(run, hb, "v2s", v2s, p, d, m, max, mpu)...)
+					}
+					if i%4 == 0 {
+						ls = append(ls, chainLines(run, wb, "walk", wb.walk, p, d, m, max, false)...)
+					}
+					lmu.Lock()
+					for _, l := range ls {
+						run.mu.Lock()
+						run.pages[l.pt.API+"-random"]++
+						run.mu.Unlock()
+						nt := ""
+						if len(l.obs.Keys)+len(l.obs.CPs) > 0 {
+							nt = fmt.Sprintf("r%d|%s|%s|%s|%d|%s", s, p, d, l.pt.Marker, max, l.pt.API)
+						}
+						c.Eval(nt)
+					}
+					lines = append(lines, ls...)
+					lmu.Unlock()
+				}
+				if s == 0 {
+					c.Sample(map[string]any{"random_keyset": keys})
+				}
+			}
+		}(g)
+	}
+	wg.Wait()
+	_ = failed
 	return lines
 }
 
